@@ -387,7 +387,8 @@ prop("C10", engine="e1", program="c10", rule=(
     "arity >= 2 or a class with >= 2 alias ids or >= 2 updates. Second "
     "generator (programs): a random DAG of real C++ classes, one method of "
     "arity 1..2 whose virtual parameters are drawn from T&, const T&, T*, "
-    "const T*, shared_ptr, const shared_ptr&, virtual_ptr, emitted under "
+    "const T*, shared_ptr, const shared_ptr&, shared_ptr<const T>, "
+    "virtual_ptr, virtual_ptr<const T>, emitted under "
     "three policies in one program - std_rtti, pointer ids (minimal_rtti "
     "statics, which tell const T from T, dynamic id in a field), deferred "
     "small-integer ids without type hash - compiled with ASan+UBSan; every "
